@@ -15,10 +15,15 @@ CliPairs == <<
   P(Void, O1("k0", N1)),
   \* more than 64 KiB on one line, but short arrays at every level (jd's LCS is quadratic in the array length)
   P(Arr([r \in 1..300 |-> Arr([i \in 1..120 |-> Num(8 * ((i + r) % 7))])]),
-    Arr([r \in 1..300 |-> Arr([i \in 1..120 |-> Num(8 * ((i + r + (IF r = 150 /\ i = 60 THEN 1 ELSE 0)) % 7))])])) >>
+    Arr([r \in 1..300 |-> Arr([i \in 1..120 |-> Num(8 * ((i + r + (IF r = 150 /\ i = 60 THEN 1 ELSE 0)) % 7))])])),
+  \* 10..21: edge pairs
+  P(O1("k0", N1), EmptyArr), P(Arr(<<N1, N2>>), EmptyArr), P(N1, EmptyArr), P(Arr(<<N1>>), EmptyObj), P(O1("k0", N1), EmptyObj),
+  P(EmptyArr, EmptyObj), P(EmptyObj, EmptyArr), P(N1, Null), P(Null, Bool(FALSE)), P(O1("k0", Str("")), O1("k0", Null)),
+  P(Str(""), Num(0)), P(EmptyArr, EmptyArr) >>
 PairIds == 1..8       \* pair 9 is the large one, used by BigInvocations only
 
 All == DiffInvocations(PairIds, PairIds \ {6}) \cup ErrorInvocations \cup TransInvocations({2, 6}) \cup BigInvocations(9)
+       \cup EdgeInvocations(10..21)
 ASSUME ndJsonSerialize(IOEnv.JDV_OUT \o "/invocations.ndjson", SetToSeq(All))
 ASSUME ndJsonSerialize(IOEnv.JDV_OUT \o "/clipairs.ndjson", CliPairs)
 ASSUME PrintT(<<"JDV-STAT", "invocations", Cardinality(All)>>)
